@@ -3,6 +3,9 @@
 -/
 import CedarProofs.CacheLemmas
 import CedarProofs.Prefix
+import CedarProofs.Keyed
+import CedarProofs.CacheHistory
+import CedarProps.C02
 
 namespace Cedar.C06
 open Cedar Cedar.SC
@@ -274,5 +277,223 @@ example : (serverResume cache0 1000 "s1".toList true 5).2 = (.authorized 5, some
 example : (serverResume cache0 1000 "s2".toList true 5).2 = (.sidNotFound, none) := by decide
 example : (serverResume cache0 3000 "s1".toList false 5).2 = (.none, none) := by decide
 example : (serverResume (cache0.invalidate "s1".toList) 1000 "s1".toList true 5).2 = (.sidNotFound, none) := by decide
+
+/-! ### Wire-level meaning of a successful resumption
+
+Clause: "a requester without the key can neither get a single byte accepted as application data nor
+read anything sent to it; from the resumption reply onwards every byte on that connection is
+protected by that key". `resume_needs_key` only reads fields of the outcome record; the theorem
+below ties the outcome to the Stream model. -/
+
+/-- **resumed_connection_protected**: let `serverResume` succeed with outcome `o`. Then `o.key` is
+    the key `k` of the cached entry, and the server's stream as `handleSessionResumption` leaves it
+    (`serverAfterResume`: request bytes received in clear, the reply — if one was asked for — sent in
+    clear, then `setupStreamEncryption` with `k`), driven by ANY later history of application
+    operations `hist` (sends, buffered writes, secrets, receives of arbitrary frames, crypto-on;
+    everything but an explicit `SetCryptoMode(false)` by the application itself), satisfies
+    `ProtectedBy … k`:
+    (a) every frame accepted by `ReceiveFrameWithEnd`, `ReceiveFrame` or `GetSecret` is a genuine
+        seal under `k` and the bytes handed over are its plaintext; a frame whose body is raw bytes
+        or a seal under any other key is an error in those and in `ReceiveCompleteMessage`,
+        `readNextFrame`/`StartMessageRead` and the typed layer's frame loop;
+    (b) every frame the server put on the wire during `hist` is a non-empty `.ct` sealed under `k`,
+        and no stream that does not hold `k` — in any state — gets anything out of it. -/
+theorem resumed_connection_protected (c : Cache) (now : Nat) (sid : Str) (want : Bool) (nonce : Nat) (ra : Bool)
+    (c' : Cache) (reply : ResumeReply) (o : ResumeOutcome)
+    (h : serverResume c now sid want nonce ra = (c', reply, some o))
+    (req : Bytes) (replyBytes : Option Bytes) (iv : IV) (hist : List Op)
+    (hon : ∀ op ∈ hist, op.keepsCrypto = true) :
+    ∃ k e, c.get sid = some e ∧ e.key = some k ∧ o.key = some k ∧ o.encrypted = true ∧
+      ProtectedBy ((serverAfterResume req replyBytes k iv).run hist).1
+                  ((serverAfterResume req replyBytes k iv).run hist).2 k := by
+  obtain ⟨e, hg, _, hks, hok, hoe, _⟩ := resume_needs_key c now sid want nonce ra c' reply o h
+  cases hk : e.key with
+  | none => simp [hk] at hks
+  | some k =>
+    refine ⟨k, e, hg, hk, by rw [hok, hk], hoe, ?_⟩
+    exact run_protected _ k (setKey_keyed _ k iv) hist hon
+
+/-- corollary in the words of the clause: on the resumed connection a requester that does not hold
+    the session key (all it can make are raw bytes and seals under its own keys `k' ≠ k`) gets no
+    frame accepted at any point, and opens nothing the server sends. -/
+theorem resumed_keyless_requester_locked_out (c : Cache) (now : Nat) (sid : Str) (want : Bool) (nonce : Nat) (ra : Bool)
+    (c' : Cache) (reply : ResumeReply) (o : ResumeOutcome)
+    (h : serverResume c now sid want nonce ra = (c', reply, some o))
+    (req : Bytes) (replyBytes : Option Bytes) (iv : IV) (hist : List Op)
+    (hon : ∀ op ∈ hist, op.keepsCrypto = true) :
+    ∃ k, o.key = some k ∧
+      (∀ g : WireFrame, (∀ ivo sl, g.body = .ct ivo sl → sl.key ≠ k) →
+         ∃ e, ((serverAfterResume req replyBytes k iv).run hist).1.recvFrameWithEnd g = .error e) ∧
+      (∀ f ∈ ((serverAfterResume req replyBytes k iv).run hist).2, ∀ r : Stream, r.key ≠ some k →
+         ∃ e, r.recvFrameWithEnd f = .error e) := by
+  obtain ⟨k, e, _, _, hok, _, hp⟩ :=
+    resumed_connection_protected c now sid want nonce ra c' reply o h req replyBytes iv hist hon
+  exact ⟨k, hok, fun g hg => (hp.rejects g hg).1, fun f hf r hr => (hp.sent_opaque f hf r hr).1⟩
+
+/-! Non-vacuity: the hypotheses are met by `cache0`/"s1" (key 7) and a history with sends, a secret
+    and a received junk frame; the server emits two frames in it; the key holder's first frame IS
+    accepted on that stream while the same frame sealed under key 8 is not. -/
+private def histDemo : List Op := [.send [1] 1, .recv ⟨1, 1, .raw [0]⟩, .secret [2], .crypto true]
+private def keyHolderFrame (k : Nat) : WireFrame :=
+  ⟨0, 33, .ct (some ⟨5, []⟩) ⟨k, (⟨5, []⟩ : IV).nonce 0, ⟨some (.H [1, 2, 3], .H [9]), 0, 33⟩, [42]⟩⟩
+
+example : ∃ k, (some k = some 7) ∧
+    ProtectedBy ((serverAfterResume [1,2,3] (some [9]) k ⟨2, []⟩).run histDemo).1
+                ((serverAfterResume [1,2,3] (some [9]) k ⟨2, []⟩).run histDemo).2 k := by
+  obtain ⟨k, e, hg, hk, hok, _, hp⟩ := resumed_connection_protected cache0 1000 "s1".toList true 5 false
+    _ _ _ (rfl) [1,2,3] (some [9]) ⟨2, []⟩ histDemo (by decide)
+  have h7 : some 7 = some k := hok
+  exact ⟨k, h7.symm, hp⟩
+example : ((serverAfterResume [1,2,3] (some [9]) 7 ⟨2, []⟩).run histDemo).2.length = 2 := by decide
+example : (((serverAfterResume [1,2,3] (some [9]) 7 ⟨2, []⟩).run histDemo).1.recvFrameWithEnd (keyHolderFrame 7)).toBool = true := by decide
+example : (((serverAfterResume [1,2,3] (some [9]) 7 ⟨2, []⟩).run histDemo).1.recvFrameWithEnd (keyHolderFrame 8)).toBool = false := by decide
+
+/-! ### Replays of recorded connections, beyond the first frame
+
+`replay_rejected` / `reply_replay_rejected` cover the FIRST protected frame and take the digest
+difference as a hypothesis about that frame. Below: the whole resumed connection, against the C02
+adversary enlarged by everything recorded on earlier connections of the session
+(`C02.AdvWireS`), with the freshness facts as explicit session hypotheses. -/
+
+/-- **resumed_replay_prefix**: a server connection resumed in the reply mode (reply bytes `b2`,
+    carrying this connection's fresh `ResumeNonce`) hands its application only a prefix of the
+    messages the key-holding client sends on THIS connection — whatever the adversary forges,
+    reflects, or replays from this or any EARLIER connection of the session, at any position.
+    Session hypotheses: the base IVs of earlier connections differ in their last 12 bytes from this
+    client's (`hiv_fresh`), and every earlier first frame was sealed over a reply other than `b2`
+    (`hnonce_fresh`: its second AAD digest is not `H b2` — a consequence of the fresh nonce under
+    the free-constructor hash, `digests_differ`). In the no-reply mode the second hypothesis is
+    unavailable and the statement fails (`noreply_replay_fails`). -/
+theorem resumed_replay_prefix (req b2 : Bytes) (k : Nat) (ivS ivR : IV) (S S' R' : Stream)
+    (ops opsR : List SendOp) (sent own old w : List WireFrame)
+    (hivS : ivS.w0 < 2^32) (hivR : ivR.w0 < 2^32) (hsep : ivS.tail ≠ ivR.tail)
+    (hsend : (S.setKey k ivS).sendAll ops = .ok (S', sent))
+    (hown : (serverAfterResume req (some b2) k ivR).sendAll opsR = .ok (R', own))
+    (hiv_fresh : ∀ f ∈ old, ∀ ivo c, f.body = .ct ivo c → c.key = k → c.nonce.tail ≠ ivS.tail)
+    (hnonce_fresh : ∀ f ∈ old, ∀ ivo c, f.body = .ct ivo c → c.key = k →
+        ∀ d1 d2, c.aad.digests = some (d1, d2) → d2 ≠ .H b2)
+    (hadv : C02.AdvWireS k sent own old w) (n : Nat) :
+    Stream.deliverFuel n (serverAfterResume req (some b2) k ivR) w <+: messagesOf [] ops := by
+  let R0 : Stream := { (({} : Stream).feedRecv req) with dig := (({} : Stream).feedRecv req).dig.feedSend b2 }
+  have hfs : R0.dig.fs = .H b2 := by
+    simp [R0, Stream.feedRecv, Dig.feedRecv, Dig.feedSend, Dig.fs]
+  have hold : C02.OldConnections k ivS (R0.dig.fr, R0.dig.fs) old :=
+    ⟨hiv_fresh, fun f hf ivo c hb hk heq => hnonce_fresh f hf ivo c hb hk _ _ heq hfs⟩
+  exact C02.recv_prefix_resumed S S' R0 R' k ivS ivR ops opsR sent own old w hivS hivR hsep hold hsend hown hadv n
+
+/-! ### "never revives a dead session": all orderings
+
+`invalidated_is_dead`, `other_ops_do_not_revive`, `expired_lookup_removes` are single steps. The
+property quantifies over every ordering of cache operations. Below: histories (`List COp`,
+CedarProofs/CacheHistory.lean) over the SessionCache model itself — `Store`, `Invalidate`,
+`InvalidateExpired`, `LookupNonExpired`, `MapCommand`, server resumptions, client resumptions through
+the command map and by explicit id, `storeClientSession` — in any order and number. -/
+
+/-- what "no resumption of `S` succeeds" means in a cache state, at time `now` -/
+def NoResume (c : Cache) (S : Str) (now : Nat) : Prop :=
+  (∀ want nonce ra, (serverResume c now S want nonce ra).2 = (if want then .sidNotFound else .none, none)) ∧
+  (∀ ans ra, (clientById c now S ans ra).2 = .resumeFailed S) ∧
+  (∀ tag addr cmd ans ra sid key user auth,
+      (clientTry c now tag addr cmd ans ra).2 = .resumed sid key user auth → sid ≠ S)
+
+theorem noResume_of_dead (c : Cache) (S : Str) (t now : Nat) (hw : c.WF) (hd : c.DeadAt S t) (ht : t ≤ now) :
+    NoResume c S now := by
+  refine ⟨fun want nonce ra => ?_, fun ans ra => ?_, ?_⟩
+  · apply dead_not_resumed
+    cases hg : c.get S with
+    | none => exact .inl rfl
+    | some e =>
+      obtain ⟨x, hx, hlt⟩ := hd e hg
+      exact .inr ⟨e, rfl, .inl (by simp [Entry.expired, hx]; omega)⟩
+  · have hn := dead_not_found hd ht
+    unfold clientById
+    cases hl : c.lookupNonExpired now S with
+    | mk c1 found =>
+      rw [hl] at hn
+      simp only at hn
+      subst hn
+      rfl
+  · intro tag addr cmd ans ra sid key user auth h
+    unfold clientTry at h
+    split at h
+    · cases h
+    · split at h
+      · cases h
+      · rename_i e hl
+        obtain ⟨sid', _, hg, hlive⟩ := lookupByCommand_id c now tag addr cmd e hl
+        have hne := live_hit_ne hw hd ht hg hlive
+        split at h
+        · cases h
+        · cases ans <;> simp at h
+          rw [← h.1]; exact hne
+
+/-- **dead_stays_dead** (every ordering): let `S` be dead as of time `t` in a well-formed cache —
+    absent, or present with an expiration before `t`. After ANY history of cache operations in which
+    `S` is not stored again (no `Store` / `storeClientSession` of that identifier) and no operation
+    reads a clock earlier than `t`, no resumption of `S` succeeds at any time `≥ t`: the server
+    answers `SID_NOT_FOUND`, a client naming it explicitly fails, and no command-map route resumes
+    it. Since every prefix of a history is a history, this holds at every point along it. -/
+theorem dead_stays_dead (c : Cache) (S : Str) (t : Nat) (ops : List COp)
+    (hwf : c.WF) (hdead : c.DeadAt S t)
+    (hno : ∀ o ∈ ops, o.stores S = false) (htime : ∀ o ∈ ops, ∀ n, o.time = some n → t ≤ n) :
+    ∀ pre post, ops = pre ++ post → ∀ now, t ≤ now → NoResume (c.runOps pre) S now := by
+  intro pre post hsplit now ht
+  subst hsplit
+  exact noResume_of_dead _ S t now (wf_runOps pre c hwf)
+    (dead_runOps pre c S t hwf hdead (fun o ho => hno o (List.mem_append_left _ ho))
+      (fun o ho => htime o (List.mem_append_left _ ho))) ht
+
+/-- **invalidate_wins_history**: any history `pre`, then `Invalidate S`, then any history `post` in
+    which `S` is not stored again: at every point after the invalidation, at every time, no
+    resumption of `S` succeeds. No assumption on the clock (an absent session is dead at time 0). -/
+theorem invalidate_wins_history (c : Cache) (S : Str) (pre post : List COp) (hwf : c.WF)
+    (hno : ∀ o ∈ post, o.stores S = false) :
+    ∀ p1 p2, post = p1 ++ p2 → ∀ now, NoResume (c.runOps (pre ++ .invalidate S :: p1)) S now := by
+  intro p1 p2 hsplit now
+  have hw1 : ((c.runOps pre).invalidate S).WF := wf_invalidate (wf_runOps pre c hwf) S
+  have hd1 : ((c.runOps pre).invalidate S).DeadAt S 0 := by
+    intro e he; rw [get_invalidate_self] at he; cases he
+  have hrun : c.runOps (pre ++ .invalidate S :: p1) = ((c.runOps pre).invalidate S).runOps p1 := by
+    simp [Cache.runOps, List.foldl_append, COp.apply]
+  rw [hrun]
+  exact dead_stays_dead _ S 0 post hw1 hd1 hno (fun _ _ _ _ => Nat.zero_le _) p1 p2 hsplit now (Nat.zero_le _)
+
+/-- **expired_stays_dead_history**: a session whose entry is expired at time `t` (whether or not a
+    lookup has removed it yet) is never resumed afterwards, in any history that does not store it
+    again and whose clock readings are `≥ t`. -/
+theorem expired_stays_dead_history (c : Cache) (S : Str) (t : Nat) (e : Entry) (ops : List COp) (hwf : c.WF)
+    (hg : c.get S = some e) (hx : e.expired t = true)
+    (hno : ∀ o ∈ ops, o.stores S = false) (htime : ∀ o ∈ ops, ∀ n, o.time = some n → t ≤ n) :
+    ∀ pre post, ops = pre ++ post → ∀ now, t ≤ now → NoResume (c.runOps pre) S now := by
+  apply dead_stays_dead c S t ops hwf ?_ hno htime
+  intro e' he'
+  rw [hg] at he'
+  simp only [Option.some.injEq] at he'
+  subst he'
+  unfold Entry.expired at hx
+  cases hexp : e.expiration with
+  | none => simp [hexp] at hx
+  | some x => exact ⟨x, rfl, by simpa [hexp] using hx⟩
+
+/-- every cache reachable from the empty one by these operations is well-formed, so `hwf` is no
+    restriction -/
+theorem reachable_wf (ops : List COp) : (({} : Cache).runOps ops).WF := wf_runOps ops {} wf_empty
+
+/-- the hypothesis "not stored again" is needed, and is the only way back: a `Store` of the
+    identifier after the invalidation makes it resumable again (a new handshake established it) -/
+example : ((cache0.runOps [.invalidate "s1".toList, .store live]).get "s1".toList).isSome = true := by decide
+
+/-! Non-vacuity: a history with resumptions of another session, a sweep, a client-side store and
+    command mapping around an invalidation of "s1" (key 7) meets the hypotheses; "s1" is refused at
+    the end, while before the invalidation it was resumable. -/
+private def histPost : List COp :=
+  [.serverResume 1000 "s2".toList true 1 false, .sweep 1500, .mapCommand [] "a".toList "c".toList "s1".toList,
+   .clientStore "t".toList "a".toList keyless, .clientTry 1600 [] "a".toList "c".toList .authorized false,
+   .clientById 1700 "s1".toList .authorized false, .lookup 1800 "s1".toList]
+example : ∀ o ∈ histPost, o.stores "s1".toList = false := by decide
+example : cache0.WF := wf_store (wf_store wf_empty live) keyless
+example : (serverResume (cache0.runOps ([.serverResume 900 "s1".toList true 3 false] ++ .invalidate "s1".toList :: histPost))
+    2000 "s1".toList true 5).2 = (.sidNotFound, none) := by decide
+example : (serverResume (cache0.runOps [.serverResume 900 "s1".toList true 3 false]) 1000 "s1".toList true 5).2.2.isSome = true := by decide
 
 end Cedar.C06
